@@ -36,4 +36,6 @@ def oracle(ctx, search):
     for l in orc + torc:
         if l.startswith(ORACLE_KEYS):
             fails.append(Fail(key=re.sub(r"(value|before|after|naos|nfos|ums0|ums|dsumm|aufnasum-delta|sum-pe|dPESUM|dAUFNASUM|fast-before|slow-before)=\S+", "", l)[:100].strip(), what=l))
+    from props import daynlib
+    fails += daynlib.oracle_day(ctx, daynlib.C07_KEYS) or []
     return fails
